@@ -6,6 +6,7 @@ Implements many of the main functions used to call PROPKA.
 """
 
 import logging
+import math
 import argparse
 from pathlib import Path
 from typing import Dict, Iterable, Iterator, List, TYPE_CHECKING, NoReturn, Optional, Tuple, TypeVar
@@ -145,10 +146,12 @@ def make_grid(min_: Number, max_: Number, step: Number) -> Iterator[Number]:
         max_:  maximum value of grid
         step:  grid step size
     """
-    x = min_
-    while x <= max_:
-        yield x
-        x += step
+    # number of whole steps that fit in the range; the small tolerance keeps
+    # the end point when (max_ - min_) / step is an integer that the floating
+    # point division misses by a rounding error
+    count = math.floor((max_ - min_) / step + 1e-9)
+    for index in range(count + 1):
+        yield min_ + index * step
 
 
 def generate_combinations(interactions: Iterable[T]) -> List[List[T]]:
